@@ -28,11 +28,18 @@ def run(ctx):
                  '(xcl 120 121)', '(xcl)', '(xcl 53 32 61 32)', '(xbl 1 2)', '(xbl 97)', '(xl 1 2)', '(xl)']
         for n in range(1500 if ctx.tier == 'quick' else 8000):
             cases.append(['CACHE', f'y{n}', 'parse'] + [r.choice(ppool) for _ in range(r.randint(2, 9))])
+        # variant `clone`: the constants of a v1 sequence, the object sealed and cloned with each of the four public clone helpers;
+        # on every clone each constant reads back at its address and an equal constant added again gets THAT address (no growth)
+        v1 = [c for c in cases if c[0] == 'CACHE' and c[2] == 'v1']
+        for n, c in enumerate(v1[:: max(1, len(v1) // (1200 if ctx.tier == 'quick' else 6000))]):
+            cases.append(['CACHE', f'z{n}', 'clone'] + c[3:])
+        for n in range(300):
+            cases.append(['CACHE', f'z_{n}', 'clone'] + [r.choice(pool[3:] + ['(i 100)', '(i 200)', '(cl 97 98 99)', '(bl 1 2)', '(f 1.5 x)'][:4]) for _ in range(r.randint(1, 6))])
     ctx.evaluations = len(cases)
     if not h_ok:
         return
     impl = vlib.run_impl(cases, 'c15', per_case_s=5.0)
-    model = vlib.run_model([c for c in cases if not (c[0] == 'CACHE' and c[2] in ('raw', 'parse'))], 'c15') if drv_ok else {}
+    model = vlib.run_model([c for c in cases if not (c[0] == 'CACHE' and c[2] in ('raw', 'parse', 'clone'))], 'c15') if drv_ok else {}
     dis = 0
     streams = {}
     for c in cases:
